@@ -230,7 +230,9 @@ Qed.
    the modules are processed (`resolve_global_variables` runs once per module, in `tree.modules` order):
      main.sy:  from b use x   start :: fn do x end        b.sy:  from c use x        c.sy:  x :: 1
    In the order tree() produces (main, b, c) the program is rejected ("Cannot find x in namespace b");
-   were the modules processed in the order c, b, main it would be accepted. *)
+   were the modules processed in the order c, b, main it would be accepted.  This is the behaviour of the
+   code while `imports_fixpoint` is off; with the flag on see reexport_fixpoint_accepts and
+   Resolve/ImportFix.v (imports_order_independent). *)
 Definition spn (f l : N) : span := mkSpan f l l 1 2.
 Definition idn (s : string) (f l : N) : ident := mkIdent s (spn f l).
 
@@ -246,7 +248,18 @@ Definition reexport_b : pmodule :=
 Definition reexport_c : pmodule :=
   mkModule (File "/c.sy") 2 [PDefinition (idn "x" 2 1) Const (PTImplied (spn 2 1)) (PInt 1 (spn 2 1)) (spn 2 1)].
 
-Theorem reexport_order_dependent : forall fl,
+Theorem reexport_order_dependent : forall fl, imports_fixpoint fl = false ->
   resolve fl [reexport_main; reexport_b; reexport_c] = Err [mkRErr ECannotFind (spn 0 1)]
   /\ exists r, resolve fl [reexport_c; reexport_b; reexport_main] = Ok r.
-Proof. intros [[] [] [] []]; (split; [vm_compute; reflexivity|eexists; vm_compute; reflexivity]). Qed.
+Proof.
+  intros [[] [] [] [] []] H; try discriminate H; (split; [vm_compute; reflexivity|eexists; vm_compute; reflexivity]).
+Qed.
+
+(* With the import pass repeated until no name is added (`imports_fixpoint`), the same three modules are accepted
+   in both orders, and with the same variable for x. *)
+Theorem reexport_fixpoint_accepts : forall fl, imports_fixpoint fl = true ->
+  (exists r, resolve fl [reexport_main; reexport_b; reexport_c] = Ok r)
+  /\ (exists r, resolve fl [reexport_c; reexport_b; reexport_main] = Ok r).
+Proof.
+  intros [[] [] [] [] []] H; try discriminate H; (split; eexists; vm_compute; reflexivity).
+Qed.
